@@ -252,7 +252,7 @@ theorem eq_of_id_eq : ∀ (defs : List MTask), (defs.map (·.id)).Nodup → ∀ 
     then after a completed `write + run_tasks` every definition holds. -/
 theorem writeAndRun_consistent (sched : Sched) (s : MState) (p : Path) (v : Val) (hi : MInv s) (sc : Scope s p)
     (hvs : ValidSched (gOf s.idx) (findTaskids s.idx (chainR p)) (sched (findTaskids s.idx (chainR p))))
-    (hbefore : ∀ t ∈ s.defs, t.id ≠ p → (exprSys pySem).Q (toE t) s.store)
+    (hbefore : ∀ t ∈ s.defs, t.id ≠ p → t.id ∉ sched (findTaskids s.idx (chainR p)) → (exprSys pySem).Q (toE t) s.store)
     (hself : ∀ t ∈ s.defs, t.id = p → eval pySem s.store (toE t).expr = .ok v)
     (s' : MState) (hok : writeAndRun sched s p v = (s', none)) :
     Consistent s' ∧ s'.defs = s.defs ∧ s'.idx = s.idx ∧ s'.faultIn = none ∧ s'.frozen = s.frozen := by
@@ -278,7 +278,7 @@ theorem writeAndRun_consistent (sched : Sched) (s : MState) (p : Path) (v : Val)
         rw [hok] at hg
         obtain ⟨hgi, hgd, hgf⟩ := hg
         obtain ⟨hnd, hmem, _⟩ := findTaskids_spec s hi (chainR p) sc.acyclic
-        generalize hπ : sched (findTaskids s.idx (chainR p)) = π at hvs hlmap
+        generalize hπ : sched (findTaskids s.idx (chainR p)) = π at hvs hlmap hbefore
         have memπ : ∀ x, x ∈ π ↔ ∃ s0 ∈ startOf s.idx (chainR p), Dfs3.Reach (gOf s.idx) s0 x :=
           fun x => (hvs.mem x).trans (hmem x)
         have key := Capstone.consistent_of_order pySem (s.defs.map toE) (gOf s.idx) (startOf s.idx (chainR p)) π
@@ -302,7 +302,7 @@ theorem writeAndRun_consistent (sched : Sched) (s : MState) (p : Path) (v : Val)
                 exact get_set_incomparable hset (hp ▸ sc.h3 t ht r hr) sc.pathP.2 (hpr r hr).2
               · show get s1.store t.id = .ok v
                 rw [hp]; exact get_set_same hset
-            · refine Capstone.Q_after_set pySem (toE t) s.store s1.store p v (hbefore t ht hp) hset sc.pathP.2 hpt.2
+            · refine Capstone.Q_after_set pySem (toE t) s.store s1.store p v (hbefore t ht hp hnot') hset sc.pathP.2 hpt.2
                 (sc.h2p t ht hp) ?_
               intro r hr
               refine ⟨(hpr r hr).2, Classical.byContradiction fun hc => hnot' ?_⟩
@@ -420,7 +420,7 @@ theorem setValue_consistent (sched : Sched) (s : MState) (p : Path) (v : Val) (h
   obtain ⟨hi0, hst, _, _, hfree, hsub⟩ := preState_facts s p hi hf
   have hw := setValue_eq sched s p v s' hok
   obtain ⟨hcons, _, _, hnf, _⟩ := writeAndRun_consistent sched (preState s p) p v hi0 sc hvs
-    (fun t ht _ => by rw [hst]; exact hc t (hsub t ht).1)
+    (fun t ht _ _ => by rw [hst]; exact hc t (hsub t ht).1)
     (fun t ht he => absurd he (hsub t ht).2) s' hw
   refine ⟨hcons, ?_, hnf⟩
   have := setValue_MInv sched s p v hi
@@ -499,7 +499,7 @@ theorem setExpr_consistent (sched : Sched) (s : MState) (p : Path) (e : Expr) (h
   obtain ⟨v, hev, hw⟩ := setExpr_eq sched s p e s' hf hok
   obtain ⟨hcons, _, _, hnf, _⟩ := writeAndRun_consistent sched (defPart s p e) p v hi0 sc hvs
     (by
-      intro t ht hne
+      intro t ht hne _
       rcases hsub t ht with ⟨h1, _⟩ | h
       · rw [hst]; exact hc t h1
       · exact absurd (by rw [h]; rfl) hne)
@@ -514,10 +514,51 @@ theorem setExpr_consistent (sched : Sched) (s : MState) (p : Path) (e : Expr) (h
   rw [hok] at this
   exact this
 
+/-! ### in-place operators reduce to one of the two assignments -/
+
+/-- the assignment `ref[k] ⊕= operand` ends up making (`none`: it raises before assigning anything) -/
+def inplaceCall (s : MState) (op : String) (p : Path) (operand : Expr) : Option Call :=
+  match exprOf s p with
+  | some e => some (.setExpr p (.bin op e operand))
+  | none =>
+    match get s.store p with
+    | .error _ => none
+    | .ok old =>
+      match operand with
+      | .lit w => (match pyBinRaw op old w with | .error _ => none | .ok v => some (.setValue p v))
+      | _ => some (.setExpr p (.bin op (.lit old) operand))
+
+theorem inplace_eq (sched : Sched) (s : MState) (op : String) (p : Path) (operand : Expr) (c : Call)
+    (h : inplaceCall s op p operand = some c) : inplace sched s op p operand = apply sched s c := by
+  unfold inplaceCall at h
+  unfold inplace
+  cases he : exprOf s p with
+  | some e =>
+    simp only [he, Option.some.injEq] at h
+    subst h; rfl
+  | none =>
+    simp only [he] at h ⊢
+    cases hg : get s.store p with
+    | error x => simp [hg] at h
+    | ok old =>
+      simp only [hg] at h ⊢
+      cases operand with
+      | lit w =>
+        simp only at h ⊢
+        cases hb : pyBinRaw op old w with
+        | error x => simp [hb] at h
+        | ok v =>
+          simp only [hb, Option.some.injEq] at h
+          subst h; rfl
+      | ref r => simp only [Option.some.injEq] at h; subst h; rfl
+      | bin o l r => simp only [Option.some.injEq] at h; subst h; rfl
+      | un o a => simp only [Option.some.injEq] at h; subst h; rfl
+
 /-! ### histories -/
 
 /-- A history every assignment of which is in scope, gets a legal schedule and completes.  Maintenance
-    calls and `unregister` are free; `register`/`load`/in-place operators are not part of this theorem. -/
+    calls and `unregister` are free; an in-place operator counts as the assignment it reduces to
+    (`inplaceCall`); `register` and `load` are not part of this theorem. -/
 def GoodRun (sched : Sched) : MState → List Call → Prop
   | _, [] => True
   | s, .setValue p v :: cs =>
@@ -534,6 +575,19 @@ def GoodRun (sched : Sched) : MState → List Call → Prop
   | s, .cleanup :: cs => GoodRun sched (cleanup s) cs
   | s, .verify :: cs => GoodRun sched (verify s).1 cs
   | s, .refresh :: cs => GoodRun sched (refresh s).1 cs
+  | s, .inplace op p operand :: cs =>
+    match inplaceCall s op p operand with
+    | some (.setValue q v) =>
+      Scope (preState s q) q ∧
+      ValidSched (gOf (preState s q).idx) (findTaskids (preState s q).idx (chainR q))
+        (sched (findTaskids (preState s q).idx (chainR q))) ∧
+      (setValue sched s q v).2 = none ∧ GoodRun sched (setValue sched s q v).1 cs
+    | some (.setExpr q e) =>
+      Scope (defPart s q e) q ∧
+      ValidSched (gOf (defPart s q e).idx) (findTaskids (defPart s q e).idx (chainR q))
+        (sched (findTaskids (defPart s q e).idx (chainR q))) ∧
+      (setExpr sched s q e).2 = none ∧ GoodRun sched (setExpr sched s q e).1 cs
+    | _ => False
   | _, _ :: _ => False
 
 theorem unregister_consistent (s : MState) (id : Path) (hi : MInv s) (hc : Consistent s) :
@@ -602,7 +656,38 @@ theorem goodRun_consistent (sched : Sched) : ∀ (cs : List Call) (s : MState), 
       rw [hd.2]
       exact hc t ht
     exact goodRun_consistent sched cs _ (refresh_MInv s hi) hc' hg
-  | .inplace _ _ _ :: _, _, _, _, hg => by simp [GoodRun] at hg
+  | .inplace op p operand :: cs, s, hi, hc, hg => by
+    simp only [GoodRun] at hg
+    cases hcall : inplaceCall s op p operand with
+    | none => simp [hcall] at hg
+    | some c =>
+      have heq := inplace_eq sched s op p operand c hcall
+      cases c with
+      | setValue q v =>
+        simp only [hcall] at hg
+        obtain ⟨sc, hvs, hok, hrest⟩ := hg
+        have hok' : setValue sched s q v = ((setValue sched s q v).1, none) := by rw [← hok]
+        obtain ⟨hc', hi', _⟩ := setValue_consistent sched s q v hi hc sc hvs _ hok'
+        have : applyAll sched s (.inplace op p operand :: cs) = applyAll sched (setValue sched s q v).1 cs := by
+          simp only [applyAll, apply, heq]
+        rw [this]
+        exact goodRun_consistent sched cs _ hi' hc' hrest
+      | setExpr q e =>
+        simp only [hcall] at hg
+        obtain ⟨sc, hvs, hok, hrest⟩ := hg
+        have hok' : setExpr sched s q e = ((setExpr sched s q e).1, none) := by rw [← hok]
+        obtain ⟨hc', hi', _⟩ := setExpr_consistent sched s q e hi hc sc hvs _ hok'
+        have : applyAll sched s (.inplace op p operand :: cs) = applyAll sched (setExpr sched s q e).1 cs := by
+          simp only [applyAll, apply, heq]
+        rw [this]
+        exact goodRun_consistent sched cs _ hi' hc' hrest
+      | inplace _ _ _ => simp [hcall] at hg
+      | register _ => simp [hcall] at hg
+      | unregister _ => simp [hcall] at hg
+      | load _ _ => simp [hcall] at hg
+      | refresh => simp [hcall] at hg
+      | cleanup => simp [hcall] at hg
+      | verify => simp [hcall] at hg
   | .register _ :: _, _, _, _, hg => by simp [GoodRun] at hg
   | .load _ _ :: _, _, _, _, hg => by simp [GoodRun] at hg
 
